@@ -30,6 +30,12 @@ func runC07(c *Ctx) {
 		c02Layers(c, ro, "C07.assignment-and-sequence-parsing")
 	}
 	c07Order(c, d)
+	// a local bound in a call argument or array element is bound in THE runner, not in a copy of it
+	if o, ok := c.P.Types.Scope().Lookup("Runner").(*types.TypeName); ok {
+		if nt, ok := o.Type().(*types.Named); ok {
+			c.byReference("C07.runner-by-reference", nt, "runner", c.method("Runner", "Resolve"))
+		}
+	}
 	c07Fresh(c, "C07.fresh-results")
 	c07NoDataWrites(c)
 }
